@@ -518,7 +518,7 @@ def dict_probe_case(case):
                 except Exception as e:
                     got_exc = type(e)
             elif op == "setitem":
-                k, v = rnd.choice(keys), rnd.choice([0, 1, -1, 9])
+                k, v = rnd.choice(keys), rnd.choice([0, 1, -1, 9, 1.0, True, 0.0])
                 desc = "d[%r] = %r" % (k, v)
                 try:
                     model[kv(k)] = vv(v)
@@ -589,6 +589,9 @@ def dict_probe_case(case):
             else:
                 if after != model:
                     violated.append("%s: contents %r, dict gives %r" % (w, after, model))
+                if any(type(after[k_]) is not type(model[k_]) for k_ in after if k_ in model):
+                    # equal is not enough: the dict on validated items holds the very object that was assigned
+                    violated.append("%s: holds %r, dict holds %r (an equal value of another type: the assigned object was not stored)" % (w, after, model))
                 if got_res != ref_res:
                     violated.append("%s: returned %r, dict returns %r" % (w, got_res, ref_res))
                 if len(events) > 1:
